@@ -53,6 +53,7 @@ struct WalkOut {
         base_node* layer_root;
     };
     std::vector<Entry> entries;
+    std::map<std::string, base_node*> layer_roots; // key prefix of a layer (8 bytes per layer above it) -> its root node
     std::map<node_version64*, node_version64_body> border_versions;
     std::vector<border_node*> borders;
     std::map<border_node*, std::size_t> border_level;
@@ -115,6 +116,7 @@ private:
     void walk_layer(base_node* root, const std::string& prefix, std::size_t level, border_node* parent_border,
                     std::size_t layer, bool is_tree_root) {
         ++o_.n_layers;
+        o_.layer_roots[prefix] = root;
         if (!root->get_version_root()) { o_.fail("layer root " + pp(root) + " lacks root flag"); }
         if (root->get_parent() != parent_border) {
             o_.fail("layer root " + pp(root) + " parent != linking border");
